@@ -253,3 +253,34 @@ func VerifC16NodeConnected(s *Session, id string) bool {
 // (the previous control host first), set up the control connection on it (system.local ->
 // ring.addOrUpdate), then refresh the ring.
 func VerifC16ControlReconnect(s *Session) { s.control.reconnect() }
+
+type verifC16NopLogger struct{}
+
+func (verifC16NopLogger) Print(v ...interface{})                 {}
+func (verifC16NopLogger) Printf(format string, v ...interface{}) {}
+func (verifC16NopLogger) Println(v ...interface{})               {}
+
+// VerifC16EventWindow feeds n status frames (numbered by their port field) to a fresh
+// eventDebouncer, flushes it once, and returns the numbers of the frames the callback
+// received, in order (what one debounce window hands to handleNodeEvent).
+func VerifC16EventWindow(n int) []int {
+	ch := make(chan []frame, 1)
+	e := newEventDebouncer("verif", func(fs []frame) { ch <- fs }, verifC16NopLogger{})
+	defer e.stop()
+	for i := 0; i < n; i++ {
+		e.debounce(&statusChangeEventFrame{change: "UP", host: net.IPv4(10, 0, 0, 1), port: i})
+	}
+	e.mu.Lock()
+	e.timer.Stop()
+	e.flush()
+	e.mu.Unlock()
+	if n == 0 {
+		return nil
+	}
+	fs := <-ch
+	out := make([]int, len(fs))
+	for i, f := range fs {
+		out[i] = f.(*statusChangeEventFrame).port
+	}
+	return out
+}
